@@ -6,6 +6,10 @@ C08 - every docstring renders; markup errors degrade to plain text.  Decides the
   R08.4 fallbacks handed to safe_to_stan cannot themselves raise
   R08.5 get_summary / get_toc guards
   R08.6 errors are reported once per object
+  R08.7 the context handed to a fallback that re-reads ctx.docstring is the object that owns the docstring
+  R08.8 'fatal' means every epytext error that stops the parse (quantifier of is_fatal)
+  R08.9 the fallback of Field.format shows the text of the field
+  R08.10 the reST parser restores docutils' process-global role table after each docstring
 Does not decide: parser termination, docutils recovery, byte-for-byte equality of the plain text shown.
 """
 from __future__ import annotations
